@@ -6,7 +6,11 @@ package main
 import (
 	"fmt"
 	"go/ast"
+	"go/token"
 	"go/types"
+	"strings"
+
+	"golang.org/x/tools/go/types/typeutil"
 )
 
 func init() {
@@ -148,27 +152,66 @@ func RunSelectShape(c *Ctx) {
 	}
 	var waitArm, doneArm, resultInWait bool
 	resultElsewhere := false
+	info := fi.Pkg.TypesInfo
+	// methods are resolved through the type checker; the receiver of wait() and result() must be the same variable
+	methodOn := func(e ast.Expr, typ, name string) (types.Object, bool) {
+		call, ok := unparen(e).(*ast.CallExpr)
+		if !ok {
+			return nil, false
+		}
+		fn, _ := typeutil.Callee(info, call).(*types.Func)
+		if fn == nil || fn.Name() != name {
+			return nil, false
+		}
+		sig := fn.Type().(*types.Signature)
+		if sig.Recv() == nil || !strings.HasSuffix(typeStr(derefType(sig.Recv().Type())), typ) {
+			return nil, false
+		}
+		sel, ok := unparen(call.Fun).(*ast.SelectorExpr)
+		if !ok {
+			return nil, true
+		}
+		if id, ok := unparen(sel.X).(*ast.Ident); ok {
+			return info.Uses[id], true
+		}
+		return nil, true
+	}
+	recvOf := func(e ast.Expr) ast.Expr {
+		if u, ok := unparen(e).(*ast.UnaryExpr); ok && u.Op == token.ARROW {
+			return u.X
+		}
+		return nil
+	}
 	ast.Inspect(fi.Body, func(n ast.Node) bool {
 		cc, ok := n.(*ast.CommClause)
 		if !ok {
 			return true
 		}
-		comm := ""
-		if es, ok := cc.Comm.(*ast.ExprStmt); ok {
-			comm = types.ExprString(es.X)
+		var commX ast.Expr
+		switch cm := cc.Comm.(type) {
+		case *ast.ExprStmt:
+			commX = recvOf(cm.X)
+		case *ast.AssignStmt:
+			if len(cm.Rhs) == 1 {
+				commX = recvOf(cm.Rhs[0])
+			}
 		}
-		isWait := comm == "<-inflight.wait()"
-		if isWait {
-			waitArm = true
-		}
-		if comm == "<-ctx.Done()" {
-			doneArm = true
+		var waitObj types.Object
+		isWait := false
+		if commX != nil {
+			if o, ok := methodOn(commX, "inflight", "wait"); ok {
+				isWait, waitObj = true, o
+				waitArm = true
+			}
+			if _, ok := methodOn(commX, "context.Context", "Done"); ok {
+				doneArm = true
+			}
 		}
 		for _, st := range cc.Body {
 			ast.Inspect(st, func(m ast.Node) bool {
 				if call, ok := m.(*ast.CallExpr); ok {
-					if sel, ok := call.Fun.(*ast.SelectorExpr); ok && sel.Sel.Name == "result" {
-						if isWait {
+					if o, ok := methodOn(call, "inflight", "result"); ok {
+						if isWait && o != nil && o == waitObj {
 							resultInWait = true
 						} else {
 							resultElsewhere = true
@@ -184,7 +227,7 @@ func RunSelectShape(c *Ctx) {
 	total := 0
 	ast.Inspect(fi.Body, func(n ast.Node) bool {
 		if call, ok := n.(*ast.CallExpr); ok {
-			if sel, ok := call.Fun.(*ast.SelectorExpr); ok && sel.Sel.Name == "result" {
+			if _, ok := methodOn(call, "inflight", "result"); ok {
 				total++
 			}
 		}
